@@ -97,8 +97,8 @@ MAX_T = 9
 # (b) get_state / clone_from_state twins of the real searchers
 
 
-def _mk_gp_mf(cs, seed, p2e, allow_duplicates=False, more_options=None):
-    sch = HyperbandScheduler(dict(cs), searcher="bayesopt", metric=METRIC, mode="min", resource_attr=RES, max_t=MAX_T,
+def _mk_gp_mf(cs, seed, p2e, allow_duplicates=False, more_options=None, mode="min"):
+    sch = HyperbandScheduler(dict(cs), searcher="bayesopt", metric=METRIC, mode=mode, resource_attr=RES, max_t=MAX_T,
                              grace_period=1, reduction_factor=3, type="stopping", random_seed=seed,
                              points_to_evaluate=p2e,
                              search_options=dict({"num_init_random": 10 ** 6, "debug_log": False, "allow_duplicates": bool(allow_duplicates)},
@@ -106,6 +106,11 @@ def _mk_gp_mf(cs, seed, p2e, allow_duplicates=False, more_options=None):
     sch._initialize_searcher()
     sch.searcher._twin_scheduler = sch   # harness-side back reference (for configure_scheduler of a clone)
     return sch.searcher
+
+
+def _twin_mode(ctor):
+    # half of the GP twins maximise (the observations the searcher stores are then mapped values)
+    return ctor.get("mode") or ("max" if ctor.get("random_seed", 0) % 2 else "min")
 
 
 def make_twin_searcher(kind, cs, ctor, p2e, seed_shift=0):
@@ -123,12 +128,14 @@ def make_twin_searcher(kind, cs, ctor, p2e, seed_shift=0):
             s._hp_ranges.random_config = s._rec.real
         return s
     rc = {"restrict_configurations": [dict(c) for c in ctor["restrict"]]} if ctor.get("restrict") else {}
+    mode = _twin_mode(ctor)
     if kind == "gp-fifo":
         return GPFIFOSearcher(dict(cs), metric=METRIC, points_to_evaluate=None if p2e is None else [dict(p) for p in p2e],
-                              num_init_random=10 ** 6, random_seed=seed, debug_log=False,
+                              num_init_random=10 ** 6, random_seed=seed, debug_log=False, mode=mode,
                               allow_duplicates=ctor.get("allow_duplicates", False), **rc)
     if kind == "gp-mf":
-        return _mk_gp_mf(cs, seed, None if p2e is None else [dict(p) for p in p2e], ctor.get("allow_duplicates", False), rc)
+        return _mk_gp_mf(cs, seed, None if p2e is None else [dict(p) for p in p2e], ctor.get("allow_duplicates", False), rc,
+                         mode=mode)
     raise AssertionError(kind)
 
 
@@ -247,6 +254,7 @@ def run_clone_twin(spec):
                     outputs.append(None)
                     pend.append(next_tid)
                 next_tid += 1
+    data_states.append(_gp_data_state(orig) if kind.startswith("gp") else None)   # ... and after the last event
     # clones at every prefix, continued for `lookahead` events
     L = spec.get("lookahead", 12)
     compared = noninit = 0
@@ -332,10 +340,23 @@ def run_clone_twin(spec):
                 break
         if diverged:
             break
+        j_end = min(i + L, len(script))
+        if kind.startswith("gp") and not spec.get("raw_state") and data_states[j_end] is not None and j_end > i:
+            # ... and after the continuation the restored searcher has recorded what the original recorded (an observation is
+            # the reported metric in the minimisation convention in both)
+            dc = _gp_data_state(clone)
+            if dc != data_states[j_end]:
+                k_ = next(q for q in ("observed", "pending", "failed") if dc[q] != data_states[j_end][q])
+                add(f"c16:{kind}-clone-data-differs", f"{kind} (mode {_twin_mode(ctor)}): the searcher restored at prefix {i} and fed events "
+                    f"{i}..{j_end - 1} holds other data than the original after the same events: {k_} {dc[k_]} instead of "
+                    f"{data_states[j_end][k_]}", {"prefix": i, "event": j_end})
+                break
         if noninit > noninit0 and any(op[0] == "failed" for op in script[:i]):
             after_failure += 1
         if script[i][0] == "get":
             n_gets_before += 1
+    if kind.startswith("gp"):
+        hist[f"clone-twin:{kind}:mode={_twin_mode(ctor)}"] = 1
     hist.update({f"clone-twin:{kind}": 1, f"clone-twin:{kind}:clones": len(states),
                  f"clone-twin:{kind}:events-compared": compared,
                  f"clone-twin:{kind}:non-initial-suggestions-compared": noninit})
